@@ -89,3 +89,12 @@ package gcc
 //@        && e.lastLossUpdate == old(e.lastLossUpdate) && e.lastIncrease == old(e.lastIncrease) && e.lastDecrease == old(e.lastDecrease)
 //@   ensures within_bounds: e.minBitrate <= e.maxBitrate ==> e.bitrate == old(e.bitrate) || (e.minBitrate <= e.bitrate && e.bitrate <= e.maxBitrate)
 //@   loop 1 invariant count: 0 <= packetsLost && packetsLost <= rangeindex + 1
+//@
+//@ # property C16/C02 ("feeding feedback never panics"): the received-rate stage never indexes outside its history and
+//@ # never divides by zero, whatever the arrival times (identical ones included)
+//@ func (*rateCalculator).run
+//@   modifies *
+//@   loop 1 opt noautoframe
+//@   loop 2 opt noautoframe
+//@   loop 3 invariant dropped: 0 <= del && del <= rangeindex + 1
+//@   loop 3 opt noautoframe
